@@ -2,7 +2,7 @@
 (***************************************************************************)
 (* The small worlds of the design checks (B1): every strictly ascending    *)
 (* key list of at most MaxKeys strings over Alphabet (length <= MaxLen),   *)
-(* with every run-length value pattern, with and without de-duplication,   *)
+(* with every assignment of values from a two-value domain (all run-length patterns and recurring values), with and without de-duplication,   *)
 (* with and without values.  A state is a world; Next appends one key, so  *)
 (* TLC's reachable states are exactly the worlds.                          *)
 (***************************************************************************)
@@ -23,8 +23,11 @@ Next ==
   /\ \E k \in Strings :
        /\ (IF Len(keys) = 0 THEN TRUE ELSE Lt(keys[Len(keys)], k))
        /\ keys' = Append(keys, k)
-       /\ \E same \in (IF dd /\ hasvals /\ Len(keys) > 0 THEN BOOLEAN ELSE {FALSE}) :
-            vals' = Append(vals, IF same THEN vals[Len(vals)] ELSE <<Len(vals) + 1>>)
+       \* with de-duplication the values matter: every assignment over a two-value
+       \* domain (all run-length patterns AND values that come back after a different
+       \* one); otherwise the values are distinct
+       /\ \E v \in (IF dd /\ hasvals THEN {<<1>>, <<2>>} ELSE {<<Len(vals) + 1>>}) :
+            vals' = Append(vals, v)
   /\ UNCHANGED <<dd, hasvals>>
 
 R == RetainedIdx(Len(keys), vals, hasvals, dd)
